@@ -2,6 +2,7 @@ package vkit
 
 import (
 	"encoding/json"
+	"os"
 	"fmt"
 	"regexp"
 	"runtime/debug"
@@ -77,7 +78,12 @@ func NewProp[C any](props []string, test string, gen func(*rapid.T) C, run func(
 		if err := json.Unmarshal(raw, &c); err != nil {
 			return fmt.Errorf("bad case: %w", err)
 		}
-		return p.safeRun(c).FirstErr()
+		o := p.safeRun(c)
+		if os.Getenv("VERIF_DEBUG") != "" && o.History != nil {
+			b, _ := json.MarshalIndent(o.History, "", " ")
+			fmt.Fprintf(os.Stderr, "HISTORY %s\n", b)
+		}
+		return o.FirstErr()
 	})
 	return p
 }
@@ -104,7 +110,13 @@ func (p *Prop[C]) Exec(t Failer, c C) {
 func (p *Prop[C]) exec(t Failer, c C) {
 	done := func() {}
 	if p.CrashFile {
-		done = InFlight(p.Props[0], p.Test, c)
+		owner := p.Props[0]
+		for _, pp := range p.Props {
+			if pp == os.Getenv("VERIF_PROP") {
+				owner = pp
+			}
+		}
+		done = InFlight(owner, p.Test, c)
 	}
 	o := p.safeRun(c)
 	done()
@@ -129,7 +141,16 @@ func (p *Prop[C]) exec(t Failer, c C) {
 			Nontrivial(prop, h, map[string]any{"case": c, "classes": append(append([]string{}, o.classes[""]...), o.classes[prop]...)})
 		}
 	}
-	// known findings first (counted, do not stop the search), then real failures
+	// known findings first (counted, do not stop the search), then real failures.
+	// When the driver checks one property (VERIF_PROP) only that property's
+	// failures stop the run; sibling properties' failures are noted.
+	target := os.Getenv("VERIF_PROP")
+	inProps := false
+	for _, pp := range p.Props {
+		if pp == target {
+			inProps = true
+		}
+	}
 	var real *fail
 	for i := range o.fails {
 		f := &o.fails[i]
@@ -137,6 +158,10 @@ func (p *Prop[C]) exec(t Failer, c C) {
 			mu.Lock()
 			ps(f.prop).KnownHits[f.sig]++
 			mu.Unlock()
+			continue
+		}
+		if inProps && f.prop != target {
+			Note(target, "sibling property "+f.prop+" failed in a shared run: sig="+f.sig)
 			continue
 		}
 		if real == nil {
